@@ -92,6 +92,7 @@ type cnode struct {
 	contiguous        bool                // no leader change / restart since the last delivered report
 	pendingWrittenMut map[uint64]bool     // indexes this node stored altered (in flight)
 	gen               int
+	mismatches        int // reports of the current instance that carried ErrChecksumMismatch
 	alteredSeen       int
 	snapIdx, snapTerm uint64 // last entry removed by this node's own head truncation ("snapshot")
 }
@@ -149,7 +150,7 @@ func sameLog(a, b *raft.Log) bool {
 
 func (c *cluster) newVerifier(n *cnode) {
 	n.gen++
-	n.triggered, n.delivered, n.lastEnd, n.dropped, n.contiguous = 0, 0, 0, nil, false
+	n.triggered, n.delivered, n.lastEnd, n.dropped, n.contiguous, n.mismatches = 0, 0, 0, nil, false, 0
 	n.mc = metrics.NewAtomicCollector(verifier.MetricDefinitions)
 	node := n
 	gen := n.gen
@@ -188,6 +189,10 @@ func (c *cluster) onReport(n *cnode, gen int, r verifier.VerificationReport) {
 		c.sim.WaitUntil("reportfn-gate", func() bool { return n.gateOpen })
 	}
 	n.delivered++
+	var mm verifier.ErrChecksumMismatch
+	if errors.As(r.Err, &mm) {
+		n.mismatches++
+	}
 	var cp *cpInfo
 	for _, x := range c.cps[r.Range.End] {
 		// the same index may have carried checkpoints of different leaders
@@ -832,6 +837,10 @@ func (c *cluster) run(cfg Config) {
 		// ranges_verified is incremented after reportFn returns: give the verifier its turn
 		c.sim.Quiesce("quiesce-accounting")
 		sum = n.mc.Summary().Counters
+		if int(sum["read_checksum_failures"]+sum["write_checksum_failures"]) != n.mismatches {
+			c.violate("drop-accounting", "checksum-failure-metrics", "node %d: read+write_checksum_failures=%d, %d reports carried ErrChecksumMismatch", n.id, sum["read_checksum_failures"]+sum["write_checksum_failures"], n.mismatches)
+			return
+		}
 		if int(sum["ranges_verified"]) != n.delivered {
 			c.violate("drop-accounting", "ranges-verified-metric", "node %d: ranges_verified=%d, %d reports were delivered", n.id, sum["ranges_verified"], n.delivered)
 			return
